@@ -47,7 +47,7 @@ def run(ctx, replay_case):
     for c, b in zip(wf, full):
         if not ds.usable(ctx, c, b, L, ctx.stats.setdefault("inputs", {})):
             continue
-        fs = ds.size_faults(c, b, L, rnd, ctx.tier)
+        fs = ds.size_faults(c, b, L, rnd, ctx.tier) + ds.pad_faults(c, b, L, rnd, ctx.tier)
         for f in fs:
             f.meta["full"] = b
         faults += fs
@@ -106,7 +106,7 @@ def run(ctx, replay_case):
                         if int(kv["by"]) <= 0 or any(l.split(" ")[2] == kv["violator"] for l in evs):
                             problem = "exceeded error: the violator was already emitted or the excess is not positive"
             # events before the error are a prefix of the lenient reading (the well-formed decode with the one size changed)
-            if problem is None:
+            if problem is None and c.kind != "pad_fault":      # (a pad fault changes several size fields: no single-field reading to compare with)
                 base = [ds.strip_pulls(l) for l in ds.events_of(c.meta["full"])]
                 got = [ds.strip_pulls(l) for l in evs]
                 for i, (x, y) in enumerate(zip(got, base)):
